@@ -74,7 +74,9 @@ P = {
     "dir": "graph",
     "mc": [{"module": "MC_VersionGraph", "cfg": "MC_VersionGraph.cfg", "timeout": {"quick": 900, "thorough": 3000}},
            # beyond the listed property: the walk of a change through the graph (src/insert_mappings.rs), see Propagate.tla
-           {"module": "MC_Propagate", "cfg": "MC_Propagate.cfg", "timeout": {"quick": 900, "thorough": 3000}}],
+           {"module": "MC_Propagate", "cfg": "MC_Propagate.cfg", "timeout": {"quick": 900, "thorough": 3000}},
+           # design check only (nothing to bind: the repository does not store the results of the walk yet), see PropagateStore.tla
+           {"module": "MC_PropagateStore", "cfg": "MC_PropagateStore.cfg", "s2i": False}],
     "trace": {"module": "Trace_VersionGraph", "cfg": "Trace_VersionGraph.cfg"},
     "i2s_n": {"quick": 150, "thorough": 1500},
     "classify_vec": _cls,
